@@ -379,10 +379,11 @@ def sweep(ctx, pid, oracle):
         if ev.err:
             ctx.fail("exception:%s:%s" % (inst.cls, ev.err[0]), inst.desc(), "a gate", ev.err[1])
             continue
-        if nontrivial(inst):
+        # C16 is a statement about the gates that CLAIM to be Hermitian: only those count as non-trivial there
+        if nontrivial(inst) and (pid != "C16" or ev.herm):
             ctx.nontriv((inst.cls, tuple(inst.params), inst.n, bool(inst.binding)))
         if k % 131 == 7:
-            ctx.sample(inst.desc())
+            ctx.sample(inst.desc(), cap=3)         # leave room for composite / circuit / Pauli samples
         oracle(ctx, qib, fields, ev, cases if have_model else None)
     if have_model and cases:
         dis = ctx.cases("gates", HEADER, cases)
@@ -431,6 +432,49 @@ def oracle_c01(ctx, qib, fields, ev, cases):
         cases.append((ev.flags_case(), dict(inst.desc(), op="flags")))
 
 
+def second_opinion(ctx, modules):
+    """thorough tier: coqchk -o on the compiled property modules (and everything they depend on)"""
+    if not ctx.thorough:
+        return
+    for m in modules:
+        if os.path.exists(os.path.join(ctx.build, m + ".vo")):
+            ctx.coqchk("Run." + m)
+
+
+def link_theorems(ctx):
+    """coq/props/C01t.v: the composite induction (C01c/C03c/C16c, abstract leaves) instantiated with the elementary
+    generated templates at all real parameters, so that 'any gate tree over the elementary classes is unitary (its
+    inverse() is the adjoint, its Hermiticity flag is sound)' is one theorem.  The leaf hypotheses need the elementary
+    theorems of C03 and C16 as well; those two property files are compiled here as support (their theorems are the
+    obligations of ./check C03 / C16, not counted again)."""
+    from vlib.core import COQ
+    if os.environ.get("VERIF_ELEM_ONLY"):
+        return
+    if not (os.path.exists(os.path.join(ctx.build, "Prop_C01.vo")) and os.path.exists(os.path.join(ctx.build, "GenGates.vo"))):
+        ctx.oblige("C01t:link-theorems", "theorem", False, "not compiled: Prop_C01 / GenGates missing")
+        return
+    ctx.lib(["Gates/CompProofs", "Gates/ElemReal"])
+    from concurrent.futures import ThreadPoolExecutor
+    paths = [ctx.write("Prop_%s.v" % base, open(os.path.join(COQ, "props", base + ".v")).read()) for base in ("C03", "C16")]
+    with ThreadPoolExecutor(2) as ex:
+        res = list(ex.map(ctx.coqc, paths))
+    bad = [base for base, (ok, out) in zip(("C03", "C16"), res) if not ok]
+    src = os.path.join(COQ, "props", "C01t.v")
+    txt = open(src).read()
+    import re
+    forb = re.findall(r"\b(Admitted|admit|Axiom|Parameter|Conjecture|Unset Guard|bypass_check|type-in-type)\b", txt)
+    ctx.oblige("no-forbidden-constructs:C01t.v", "gate", not forb, "found: %s" % forb)
+    if bad:
+        # a defect of inverse() / is_hermitian() of an elementary class is reported by ./check C03 / C16 with a failing
+        # input; it does not violate C01, so the missing link theorem is recorded but does not fail this check
+        ctx.oblige("C01t:link-theorems", "theorem", False,
+                   "not compiled: the elementary theorems of %s do not compile against the current source "
+                   "(reported by ./check %s); C01's own theorems are unaffected" % (", ".join(bad), " / ".join(bad)))
+        ctx.obligations[-1]["explained"] = True
+        return
+    ctx.props(src)
+
+
 def run(ctx):
     ctx.rules.append("every elementary class x angle grid (0, multiples of pi/4 and pi, 1e-300..1e300, subnormal, negative, random) "
                      "x rotation vectors (zero, signed zero, subnormal, underflowing, near 1e-3, huge up to 1e150, random) x "
@@ -440,6 +484,8 @@ def run(ctx):
                      "non-trivial = constant gate, or parametrised gate with a non-zero parameter")
     sweep(ctx, "C01", oracle_c01)
     run_composite(ctx, "C01")
+    link_theorems(ctx)
+    second_opinion(ctx, ["Prop_C01t", "Prop_C01c", "Prop_C01p"])      # Prop_C01t covers Prop_C01 / C03 / C16
 
 
 def replay(ctx, data):
